@@ -7,6 +7,7 @@
   the harness: the class of every value token of the real tree of the printed text).
 -/
 import Mappy.Props.C01
+import Mappy.Lemmas.Assoc
 
 namespace Mappy.RoundTrip
 open Mappy Mappy.Printer Mappy.Quoter Mappy.Transformer
@@ -250,6 +251,64 @@ theorem C01_line_ints (cfg : Cfg) (kw ty : Str) (tuple : Bool) (ns : List Int) (
     intro e; rw [e] at hk; revert hk; decide
   refine ⟨intToks ty ns, mainTL_intTrees cfg ty ns, _, attr_many kw tuple _ hk hc (by rw [intToks_length]; exact hl), ?_⟩
   simp [lookupAV, hne1, hne2, Ne.symm hne1, Ne.symm hne2, intToks_vals]
+
+/-! ### a block of keyword lines -/
+
+/-- the results of `attr` for a run of keyword lines, with what `composite` reads off each: (key, value) -/
+inductive LinesOf : List R → List (Str × J) → Prop
+  | nil : LinesOf [] []
+  | cons (kvs : List (Str × AV)) (k : Str) (v p : J) (items : List R) (pairs : List (Str × J)) :
+      attrParts kvs = .ok (k, v, p) → LinesOf items pairs → LinesOf (.adict kvs :: items) ((k, v) :: pairs)
+
+/-- keywords that take the plain-assignment branch of `composite` -/
+def plainKeys (Rp : List Str) (pairs : List (Str × J)) : Prop :=
+  ∀ kv ∈ pairs, kv.1 ≠ s%"config" ∧ kv.1 ≠ s%"points" ∧ Rp.contains kv.1 = false
+
+theorem fold_lines (cfg : Cfg) (S Rp : List Str) (hc : cfg.com = false) :
+    (items : List R) → (pairs : List (Str × J)) → LinesOf items pairs → plainKeys Rp pairs →
+    ∀ (st : CState), st.pd = none → (∀ kv ∈ pairs, kv.1 ∉ keys st.d) → (pairs.map Prod.fst).Nodup →
+    ∃ st', items.foldlM (compositeItem cfg S Rp) st = .ok st' ∧ st'.d = st.d ++ pairs ∧ st'.pd = none
+  | _, _, .nil, _, st, hpd, _, _ => ⟨st, rfl, by simp, hpd⟩
+  | _, _, .cons kvs k v p items pairs hparts hrest, hplain, st, hpd, hfresh, hnd => by
+    have hk := hplain (k, v) (by simp)
+    have hds : dataStep Rp k v st.d = .ok (setKey k v st.d) := by
+      unfold dataStep
+      rw [if_neg hk.1, if_neg hk.2.1, hk.2.2]; rfl
+    have hnew : k ∉ keys st.d := hfresh (k, v) (by simp)
+    have hstep : compositeItem cfg S Rp st (.adict kvs) =
+        .ok { d := st.d ++ [(k, v)], pd := none, cd := comStep cfg Rp k (attrComments kvs) st.cd } := by
+      simp only [compositeItem, hparts, attrItem, hds, hpd, setKey_of_not_mem k v st.d hnew]
+    simp only [List.map_cons, List.nodup_cons] at hnd
+    obtain ⟨st', hf, hd, hp'⟩ := fold_lines cfg S Rp hc items pairs hrest (fun kv h => hplain kv (by simp [h]))
+      { d := st.d ++ [(k, v)], pd := none, cd := comStep cfg Rp k (attrComments kvs) st.cd } rfl
+      (by
+        intro kv hkv
+        simp only [keys_append, keys_cons, keys_nil, List.mem_append, List.mem_singleton, not_or]
+        refine ⟨hfresh kv (by simp [hkv]), ?_⟩
+        intro e
+        exact hnd.1 (by rw [← e]; exact List.mem_map_of_mem (f := Prod.fst) hkv))
+      hnd.2
+    refine ⟨st', ?_, ?_, hp'⟩
+    · simp only [List.foldlM_cons, hstep, bind, Except.bind]; exact hf
+    · rw [hd]; simp
+
+/-- **C01_block_of_lines** — a block whose body is a run of keyword lines with distinct plain keywords (plain load): the
+dictionary `composite` builds is `__type__` followed by exactly the (keyword, value) pairs the lines yield, in order —
+nothing dropped, invented, merged or re-ordered, for every number of lines -/
+theorem C01_block_of_lines (cfg : Cfg) (S Rp : List Str) (hp : cfg.pos = false) (hc : cfg.com = false)
+    (keyTok : Tok) (name : Str) (hname : valLower keyTok = .ok name)
+    (items : List R) (pairs : List (Str × J)) (hl : LinesOf items pairs) (hplain : plainKeys Rp pairs)
+    (hty : ∀ kv ∈ pairs, kv.1 ≠ s%"__type__") (hnd : (pairs.map Prod.fst).Nodup) :
+    compositeBody cfg S Rp keyTok items = .ok (.cdict ((s%"__type__", .str name) :: pairs)) := by
+  unfold compositeBody
+  simp only [hname]
+  obtain ⟨st', hf, hd, hpd⟩ := fold_lines cfg S Rp hc items pairs hl hplain (initState cfg name keyTok)
+    (by simp [initState, hp]) (by
+      intro kv hkv
+      simp [initState, hp, hc, hty kv hkv]) hnd
+  rw [hf]
+  simp only [finishState, hpd, hc, Bool.false_eq_true, if_false, hd]
+  simp [initState, hp, hc]
 
 /-- the hypotheses are met: NAME "a b" in a LAYER, any spelling of the keyword -/
 example : lower s%"NaMe" = s%"name" ∧ underscored s%"name" = false ∧ ('"' ∉ s%"a b") := by decide
